@@ -139,6 +139,97 @@ CHECKS = {
         "assumptions).",
         "DESIGN.md section 4, C15",
     ),
+    "C08": (
+        "exploration",
+        "Hypothesis property tests over flow / proposal configurations: "
+        "round trip, sample-density consistency, array-vs-torch differential, "
+        "2-D normalisation by quadrature, forward/backward proposal density",
+        "Generated flow configurations (type, blocks, layers, linear "
+        "transforms, batch norm, masks, base distributions, float32/64, "
+        "fresh/trained/reset weights) and FlowProposal / "
+        "ImportanceFlowProposal configurations; 339 cases quick / ~6000 "
+        "thorough with conditioning-aware tolerances.",
+        "Tolerances derived from the floating-point type and a measured "
+        "local Lipschitz constant (evidence assumptions).",
+        "DESIGN.md section 4, C08",
+    ),
+    "C10": (
+        "exploration",
+        "bounded exhaustive grid + Hypothesis + real fork pools against a "
+        "pure-Python pointwise reference",
+        "Exhaustive grid batch size x chunk size x fake pool size x "
+        "vectorisation kind x return kind x unit-cube mode (14560 cells), "
+        "Hypothesis for larger shapes, real multiprocessing pools of 1-4 "
+        "processes; exact equality, call log and counter accounting.",
+        "Models with exactly rounded arithmetic.",
+        "DESIGN.md section 4, C10",
+    ),
+    "C11": (
+        "fault_enumeration",
+        "enumeration of file-system crash points of real checkpoint and "
+        "weights writes (operation boundaries + generated byte prefixes), "
+        "then resume",
+        RUNS + "For 12 scenarios the operations of safe_file_dump / "
+        "save_weights are listed by a probe run; the writer is killed before "
+        "each operation, after the last, and after generated prefix lengths "
+        "of the stream; a fresh process must resume to a state equal to the "
+        "previous or new checkpoint digest and finish. Quick 64 crash "
+        "points, thorough all (~400).",
+        "Process death, not power loss; names os/shutil/open/torch are "
+        "substituted only in the namespaces of nessai.utils.io and "
+        "nessai.flowmodel.base.",
+        "DESIGN.md section 4, C11",
+    ),
+    "C13": (
+        "fault_enumeration",
+        "enumeration of signal instants (source line x k-th execution x "
+        "signal) via sys.monitoring against real runs, then resume",
+        RUNS + "Lines of the iteration-level functions of both samplers are "
+        "read from the code objects, a probe run counts executions, the "
+        "process signals itself just before the chosen execution; exit "
+        "status, resumability and count/shadow invariants are checked. "
+        "Quick 48 schedules, thorough all (~1000).",
+        "Line granularity; handler runs before the target line.",
+        "DESIGN.md section 4, C13",
+    ),
+    "C16": (
+        "exploration",
+        "Hypothesis property tests with exact binomial bounds on selection "
+        "frequencies (false-alarm budget 1e-9)",
+        "Generated weight vectors (length 1..1e5, -inf entries, 700-nat "
+        "dynamic range, shifts), both methods and the alias; membership / "
+        "index / count clauses exact, frequencies against exact binomial "
+        "intervals; ESS against an fsum reference. 7k cases quick / 138k "
+        "thorough.",
+        "NumPy's global generator is seeded from Hypothesis-drawn integers.",
+        "DESIGN.md section 4, C16",
+    ),
+    "C18": (
+        "exploration",
+        "Hypothesis rule-based state machine over the global extra-field "
+        "registry with a reference registry model",
+        "Rules add/reset extra fields and convert generated data between "
+        "arrays, dictionaries, data frames and live-point arrays; every "
+        "array is compared with the model registry (names, order, dtypes, "
+        "NaN-aware values, defaults); zero-copy view checks. 57k steps "
+        "quick / 940k thorough.",
+        "Reference registry written from the documentation.",
+        "DESIGN.md section 4, C18",
+    ),
+    "C20": (
+        "exploration",
+        "property-based configuration testing: single-option table + "
+        "Hypothesis-drawn option combinations, outcome classification of "
+        "bounded real runs",
+        RUNS + "Every documented option value alone (thorough; a seeded "
+        "third in quick) and generated 2-4 option combinations for both "
+        "samplers; outcome must be rejected-up-front or completed with "
+        "valid results; late exceptions and unbounded pool populations "
+        "(> 1e4 latent batches) are violations keyed by call site. Quick "
+        "~85 runs, thorough ~700.",
+        "Iteration cap on every case; wall-clock backstop = inconclusive.",
+        "DESIGN.md section 4, C20",
+    ),
     "C17": (
         "exploration",
         "Hypothesis property tests on the real threshold methods and "
